@@ -459,6 +459,9 @@ func (ctx *fromJSONSchemaContext) convertTuple(s *lib.Schema) (core.ZodSchema, e
 		if err != nil {
 			return nil, err
 		}
+	} else if s.MaxItems == nil || int(*s.MaxItems) > len(items) {
+		// Without `items` the elements beyond prefixItems are unconstrained.
+		rest = types.Unknown()
 	}
 
 	if rest != nil {
